@@ -369,11 +369,11 @@ func (e *Engine) finishRun(sc *Script, cs []*callRun) []Ev {
 	}
 	if !stuck {
 		// goroutine census: nothing of the library may be left once the
-		// calls are over; goroutines get up to 5 s to exit. Nothing is
+		// calls are over; goroutines get up to 2 s to exit. Nothing is
 		// exempt here: a handler that has not returned keeps the run open.
 		var n int
 		var tops []string
-		for i := 0; i < 400; i++ {
+		for i := 0; i < 230; i++ {
 			n, tops = libGoroutines(nil)
 			if n == 0 {
 				break
